@@ -164,6 +164,7 @@ fn simpler(d: &Driving) -> Vec<Driving> {
     };
     push(&|c| c.deliv = Deliv::Whole);
     push(&|c| c.mix = 0);
+    push(&|c| c.resume1 = false);
     push(&|c| {
         c.sound = true;
         c.sound_toggle = false
@@ -288,7 +289,7 @@ fn gen_driving(scn: &Scenario, frames: usize, i: usize, r: &mut Rng) -> Driving 
     let mut d = Driving::reference(frames, Drain::Every);
     d.seed = r.next() >> 16;
     let has_files = scn.sna.is_some() || scn.tap.is_some();
-    let nt = if has_files { 26 } else { 18 };
+    let nt = if has_files { 28 } else { 20 };
     let win = |r: &mut Rng, w: usize| -> (usize, usize) {
         let a = r.below(frames as u64) as usize;
         (a, (a + w).min(frames))
@@ -367,15 +368,22 @@ fn gen_driving(scn: &Scenario, frames: usize, i: usize, r: &mut Rng) -> Driving 
             d.mode = ModeKind::Max;
             d.sound = false;
         }
+        18 | 19 => {
+            // several frames per call, a breakpoint stop inside one of them, the resuming call asks for one frame
+            d.part = partition(if i % nt == 18 { 2 } else { 1 }, frames, &cuts, r);
+            d.bps = some_bps(r);
+            d.bp_win = win(r, 4);
+            d.resume1 = true;
+        }
         t => {
             d.deliv = match t {
-                18 => Deliv::VWhole,
-                19 => Deliv::Short { k: 1, z: false, seed: r.next() >> 40 },
-                20 => Deliv::Short { k: r.range(2, 7) as usize, z: false, seed: r.next() >> 40 },
-                21 => Deliv::Short { k: r.range(1, 200) as usize, z: true, seed: r.next() >> 40 },
-                22 => Deliv::Gzip,
-                23 => Deliv::File,
-                24 => Deliv::Short { k: 1, z: true, seed: r.next() >> 40 },
+                20 => Deliv::VWhole,
+                21 => Deliv::Short { k: 1, z: false, seed: r.next() >> 40 },
+                22 => Deliv::Short { k: r.range(2, 7) as usize, z: false, seed: r.next() >> 40 },
+                23 => Deliv::Short { k: r.range(1, 200) as usize, z: true, seed: r.next() >> 40 },
+                24 => Deliv::Gzip,
+                25 => Deliv::File,
+                26 => Deliv::Short { k: 1, z: true, seed: r.next() >> 40 },
                 _ => Deliv::Short { k: r.range(100, 20000) as usize, z: r.bool(), seed: r.next() >> 40 },
             };
             match r.below(4) {
@@ -1013,7 +1021,7 @@ pub fn run(o: &Opts) -> Report {
     rep.rule = "metamorphic on the real emulator: scenarios {48K/128K ROM boot with key script, hand-written \
         diagnostic program (IM2, HALT, keyboard, contended screen writes, border/beeper, 7FFD paging, AY, floating bus) \
         on 48K/128K loaded from SNA, tape load through the ROM with fast-load on/off} x drivings built from templates \
-        {FrameCount(n_i) partitions, Max with scripted stopwatch/limits, mixed, breakpoint sets in a frame window, \
+        {FrameCount(n_i) partitions, Max with scripted stopwatch/limits, mixed, breakpoint sets in a frame window (also with the resuming call switched to FrameCount(1)), \
         break_all and FrameCount(0) single-stepping across frame boundaries, set_sound off/toggled, mixer configurations, \
         drain every frame / every 3rd / never / at every return, asset delivery whole / VAsset / short reads 1..k with Err or Ok(0) at EOF / \
         GzipAsset / FileAsset}; every driving is compared with the reference driving (FrameCount(1), one frame per call) at every \
